@@ -18,9 +18,13 @@ import threading
 from concurrent.futures import ThreadPoolExecutor
 
 import lib
+import refstie
 from lib import coq_list
 
+import c12_families
+
 COQ_TARGETS = ["theories/Proofs/CacheLemmas.vo", "theories/Proofs/CacheMemo.vo", "theories/Model/CacheToy.vo"]
+COQ_TARGETS = COQ_TARGETS + [t for t in refstie.COQ_TARGETS if t not in COQ_TARGETS]
 WORKER = os.path.join(lib.VERIF, "harness", "c12_worker.py")
 THEOREMS = ["C12_memo_transparent", "C12_memo_transparent_immutable", "C12_history_independent",
             "C12_inputs_untouched",
@@ -88,6 +92,7 @@ def fresh(req, timeout=120):
 # ----------------------------------------------------------------------------------
 S = lambda n: ["S", n]  # noqa: E731
 INT, FLT, STR, BYT, NON, DTT, TDT = S("int"), S("float"), S("str"), S("bytes"), S("none"), S("datetime"), S("timedelta")
+DAT, TIM, DEC, FRA = S("date"), S("time"), S("decimal"), S("fraction")
 BL, BD = ["BL"], ["BD"]
 
 
@@ -103,18 +108,26 @@ TYPES = [
     U("typing", INT, STR, NON), U("pipe", STR, INT, NON), U("typing", DTT, STR), U("typing", STR, DTT),
     ["L", U("typing", INT, STR)], ["L", U("pipe", STR, INT)], ["D", U("typing", STR, INT)], ["D", U("pipe", INT, STR)],
     ["L", U("optional", INT, NON)], ["L", ["L", INT]], ["D", ["L", INT]],
+    # round 3: the other ISO-text temporals and the string-marshalled numbers
+    DAT, TIM, DEC, FRA, ["L", TIM], ["D", DAT], ["L", DEC], ["D", TIM], U("typing", TIM, STR), U("optional", DAT, NON),
+    U("typing", DEC, STR), ["L", FRA],
 ]
 # equal-but-distinct objects of the quantifier
 DT_A = ["dt", "2020-01-01T12:00:00", 0]
 DT_B = ["dt", "2020-01-01T17:00:00", 300]         # the same instant as DT_A
 DT_C = ["dt", "2021-06-01T00:30:00", 60]
 TD_A, TD_B = ["td", 0, 3600, 0], ["td", 1, 0, 0]
+TM_A, TM_B, TM_C = ["tm", "12:00:00", 0], ["tm", "13:00:00", 60], ["tm", "08:30:00", None]     # TM_A == TM_B
+DA_A = ["date", "2020-01-01"]
+DT_D = ["dt", "2020-01-02T00:30:00", 750]         # the instant of DT_A on the next calendar day
+DEC_A, DEC_B, FRA_A = ["dec", "1.5"], ["dec", "1.50"], ["frac", 3, 2]                        # DEC_A == DEC_B == FRA_A == 1.5
+TMTXT = [["s", "12:00:00+00:00"], ["y", "13:00:00+01:00"]]      # only ever under time / str / bytes (no wall clock)
 NUMS = [["i", 5], ["i", 1], ["f", (1.0).hex()], ["b", True], ["i", 0], ["f", (2.5).hex()]]
 STRS = [["s", "5"], ["s", "abc"], ["s", "1"], ["s", "x"]]
 BYTS = [["y", "5"], ["y", "abc"]]
 DTTXT = [["s", "2020-01-01T12:00:00+00:00"], ["s", "2020-01-01T17:00:00+05:00"], ["y", "2020-01-01T12:00:00+00:00"]]
 TDTXT = [["s", "PT1H"], ["y", "PT1H"]]
-ATOMS = NUMS + STRS + BYTS + [["n"], DT_A, DT_B, DT_C, TD_A, TD_B] + DTTXT + TDTXT
+ATOMS = NUMS + STRS + BYTS + [["n"], DT_A, DT_B, DT_C, TD_A, TD_B] + DTTXT + TDTXT + [DA_A, DT_D, DEC_A, DEC_B, FRA_A]
 JSON_TEXTS_UNUSED = ["[1,2]", "[5,1]", '["5","abc"]', '{"a":1}', '{"a":[1]}', "[[1],[5,1]]", '{"a":"5","b":1}', "[]", "{}",
               '{"a":[1],"b":[5,1]}', "5", '"abc"', "null", '["2020-01-01T12:00:00+00:00"]']
 
@@ -129,10 +142,20 @@ def gen_val(rng, t, js=False):
     if k == "S":
         if js:
             pools = {"int": JS_NUM[:3] + JS_STR[:1], "float": JS_NUM, "str": JS_STR + JS_NUM[:1], "bytes": JS_STR,
-                     "none": [["n"]], "datetime": DTTXT[:2], "timedelta": TDTXT[:1] + JS_NUM[:1]}
+                     "none": [["n"]], "datetime": DTTXT[:2], "timedelta": TDTXT[:1] + JS_NUM[:1],
+                     "date": [["s", "2020-01-01"]] + DTTXT[:2], "time": TMTXT[:1],
+                     "decimal": [["s", "1.5"], ["s", "1.50"]] + JS_NUM, "fraction": [["s", "3/2"], ["s", "1.5"]] + JS_NUM[:3]}
+            if t[1] == "time":
+                return rng.choice(pools[t[1]])
             return rng.choice(pools[t[1]]) if rng.random() < 0.85 else rng.choice(JS_NUM + JS_STR + [["n"]])
         pools = {"int": NUMS + STRS[:1] + BYTS[:1], "float": NUMS, "str": STRS + NUMS[:2], "bytes": BYTS + STRS[:1],
-                 "none": [["n"]], "datetime": [DT_A, DT_B, DT_C] + DTTXT, "timedelta": [TD_A, TD_B] + TDTXT + NUMS[:1]}
+                 "none": [["n"]], "datetime": [DT_A, DT_B, DT_C] + DTTXT, "timedelta": [TD_A, TD_B] + TDTXT + NUMS[:1],
+                 "date": [DA_A, DT_A, DT_B, DT_D, ["s", "2020-01-01"]] + DTTXT[:2] + NUMS[:1],
+                 "time": [TM_A, TM_B, TM_C, DT_A, DT_B] + TMTXT + DTTXT[:2],
+                 "decimal": [DEC_A, DEC_B, FRA_A, ["s", "1.5"], ["s", "1.50"]] + NUMS,
+                 "fraction": [FRA_A, DEC_A, DEC_B, ["s", "3/2"], ["s", "1.5"]] + NUMS}
+        if t[1] == "time":         # times of day only where no routine completes them with the current date
+            return rng.choice(pools[t[1]])
         return rng.choice(pools[t[1]]) if rng.random() < 0.85 else rng.choice(ATOMS)
     if k == "BL":
         return rng.choice([["l", [rng.choice(JS_NUM + JS_STR[1:2]) for _ in range(rng.randint(0, 3))]],
@@ -235,10 +258,15 @@ def gen_history(rng, maxlen):
         fam2 = [t1, t1, BD] if t1[0] in ("BD", "D") else [t1, t1, BL]
         ops.append({"op": "unmarshal", "t": rng.choice(fam2), "x": {"new": x}})
     elif r < 0.5:
-        a, b = rng.sample([DT_A, DT_B], 2)
-        t1 = rng.choice([DTT, STR, BYT, ["L", DTT], U("typing", DTT, STR)])
-        wrap = (lambda v: ["l", [v]]) if t1[0] == "L" else (lambda v: v)
-        k1 = "marshal" if t1 in (DTT, ["L", DTT]) or t1[0] == "U" else "unmarshal"
+        pair, tys = rng.choice([
+            ([DT_A, DT_B], [DTT, STR, BYT, ["L", DTT], U("typing", DTT, STR)]),
+            ([DT_A, DT_D], [DAT, DTT, TIM, STR, ["L", DAT], ["D", DAT], U("optional", DAT, NON)]),
+            ([TM_A, TM_B], [TIM, STR, BYT, ["L", TIM], ["D", TIM], U("typing", TIM, STR)]),
+            ([DEC_A, DEC_B, FRA_A], [DEC, FRA, STR, FLT, ["L", DEC], U("typing", DEC, STR)])])
+        a, b = rng.sample(pair, 2)
+        t1 = rng.choice(tys)
+        wrap = (lambda v: ["l", [v]]) if t1[0] == "L" else (lambda v: ["d", [[["s", "a"], v]]]) if t1[0] == "D" else (lambda v: v)
+        k1 = "unmarshal" if t1 in (STR, BYT, FLT) else rng.choice(["marshal", "marshal", "unmarshal"])
         ops.append({"op": k1, "t": t1, "x": {"new": wrap(a)}})
         if rng.random() < 0.3:
             ops.append({"op": rng.choice(["clear", "build_u"]), "t": t1})
@@ -448,11 +476,17 @@ class Atoms:
         return self.ids[k]
 
 
+STY_OF = {"int": "SInt", "float": "SFloat", "str": "SStr", "bytes": "SBytes", "none": "SNone",
+          "datetime": "SDateTime", "timedelta": "STimeDelta", "date": "SDate", "time": "STime",
+          "decimal": "SDecimal", "fraction": "SFraction"}
+STYS = list(STY_OF.values())
+TEMPORAL_STYS = ["SDateTime", "STimeDelta", "SDate", "STime"]
+
+
 def emit_ann(t):
     k = t[0]
     if k == "S":
-        return "(AS %s)" % {"int": "SInt", "float": "SFloat", "str": "SStr", "bytes": "SBytes", "none": "SNone",
-                            "datetime": "SDateTime", "timedelta": "STimeDelta"}[t[1]]
+        return "(AS %s)" % STY_OF[t[1]]
     if k == "BL":
         return "ABareList"
     if k == "BD":
@@ -540,10 +574,11 @@ def emit_world(w) -> str:
                    lambda v: "(Ok %s)" % coq_list(["%d%%N" % i for i in v[1]], "N") if v[0] == "ok" else emit_res(v)))
     for name in ("loads", "castl", "castd"):
         out.append(tbl("T_" + name, T[name], "res val", lambda v: emit_res(v, True)))
-    for s in ("SDateTime", "STimeDelta"):
+    for s in TEMPORAL_STYS:
         out.append(tbl("T_parse_" + s, T["parse"][s], "res N", emit_res))
         out.append(tbl("T_post_" + s, T["post"][s], "res N", emit_res))
-    stys = ["SInt", "SFloat", "SStr", "SBytes", "SNone", "SDateTime", "STimeDelta"]
+    stys = STYS
+    tsel = lambda pre: " | ".join("%s => lk %s%s Unmodelled a" % (s, pre, s) for s in TEMPORAL_STYS)  # noqa: E731
     for s in stys:
         out.append(tbl("T_lu_" + s, T["leaf_u"][s], "res N", emit_res))
         out.append(tbl("T_lm_" + s, T["leaf_m"][s], "res N", emit_res))
@@ -553,17 +588,15 @@ def emit_world(w) -> str:
                "  w_text := lk T_text false; w_temporal := lk T_temporal false; w_isdelta := lk T_isdelta true; w_isnone := lk T_isnone false;\n"
                "  w_eqc := fun a => lk T_eqc a a; w_strload := fun a => lk T_strload (VA a) a;\n"
                "  w_iso := lk T_iso Unmodelled; w_decode := lk T_decode Unmodelled;\n"
-               "  w_parse := fun a t => match t with SDateTime => lk T_parse_SDateTime Unmodelled a "
-               "| STimeDelta => lk T_parse_STimeDelta Unmodelled a | _ => Unmodelled end;\n"
-               "  w_post := fun t a => match t with SDateTime => lk T_post_SDateTime Unmodelled a "
-               "| STimeDelta => lk T_post_STimeDelta Unmodelled a | _ => Unmodelled end;\n"
+               "  w_parse := fun a t => match t with %s | _ => Unmodelled end;\n"
+               "  w_post := fun t a => match t with %s | _ => Unmodelled end;\n"
                "  w_chars := lk T_chars Unmodelled; w_len2 := lk T_len2 false;\n"
                "  w_leaf_u := fun t => lk (%s) Unmodelled; w_leaf_m := fun t => lk (%s) Unmodelled;\n"
                "  w_cast := fun b => lk (if b then T_castl else T_castd) Unmodelled;\n"
                "  w_json := lk T_json Unmodelled; w_jkey := lk T_jkey Unmodelled; w_loads := lk T_loads Unmodelled;\n"
                "  w_index := fun i => nth i %s 0%%N; w_marker := %d%%N; w_zz := %d%%N; w_none := %d%%N;\n"
                "  w_max_load := %s; w_max_iso := %s; w_max_parse := %s |}.\n"
-               % (sel("T_lu_"), sel("T_lm_"), coq_list(["%d%%N" % i for i in w["index"]], "N"), w["marker"], w["zz"],
+               % (tsel("T_parse_"), tsel("T_post_"), sel("T_lu_"), sel("T_lm_"), coq_list(["%d%%N" % i for i in w["index"]], "N"), w["marker"], w["zz"],
                   w["none"], mx(w["max"]["load"]), mx(w["max"]["iso"]), mx(w["max"]["parse"])))
     return "\n".join(out)
 
@@ -621,9 +654,16 @@ def correspond(run: lib.Run):
     maxlen = run.budget(12, 40)
     rng = random.Random(run.seed)
     hists = corpus_histories() + [gen_history(rng, maxlen) for _ in range(nh)]
+    # round 3: the equal-value families of the quantifier, enumerated (the part the model can express: declared scalar
+    # types of the model at the root / in a list / dict / Optional, members that are atoms)
+    fam = c12_families.family_histories(run.tier != "quick", model=True)
+    n_random = len(hists)
+    hists += [ops for _, ops in fam]
     _state["hists"] = hists
-    pool = Pool(run.budget(8, 14))
+    _state["n_random"] = n_random
+    pool = Pool(run.budget(12, 14))
     _state["pool"] = pool
+    check_catalogue(run, pool)
     atoms = {}
     for a in ATOMS:
         atoms[json.dumps(a)] = a
@@ -637,8 +677,10 @@ def correspond(run: lib.Run):
     A = Atoms(w["atoms"])
     ok = run.compile_dyn("GenWorld.v", text=emit_world(w))
     # the warm runs
+    run.log("world measured (%d atoms), GenWorld.v compiled" % len(A.specs))
     runs = pool.map([{"kind": "history", "ops": h} for h in hists])
     _state["runs"] = runs
+    run.log("%d histories executed" % len(hists))
     dist = {"ops": {}, "len": {}, "obs": {"ok": 0, "raise": 0, "unit": 0}}
     for h, r in zip(hists, runs):
         dist["len"][len(h)] = dist["len"].get(len(h), 0) + 1
@@ -659,6 +701,7 @@ def correspond(run: lib.Run):
         files["cases_%d.v" % (k // shard)] = hdr + "Definition cases : list (list op * list out) :=\n " + \
             coq_list(cs, "(list op * list out)").replace("; ((", ";\n ((") + ".\nEval vm_compute in bad_cases W 0 cases.\n"
     res = run.coq_eval_many(files, timeout=900)
+    run.log("model evaluated on %d shards" % len(files))
     bad = []
     for name, out in res.items():
         k = int(name[6:-2]) * shard
@@ -672,10 +715,36 @@ def correspond(run: lib.Run):
             bad.append({"history": ci, "op_index": oi, "op": hists[ci][oi], "observed": runs[ci]["obs"][oi],
                         "ops": hists[ci][:oi + 1]})
     nontriv = len({json.dumps(h) for h in hists if any(o["op"] in ("mutres", "clear") or "old" in o.get("x", {}) for o in h)})
+    nontriv += len({json.dumps(h) for h in hists[n_random:]})
     dist["atoms"] = len(A.specs)
+    dist["equal_value_family_histories"] = len(hists) - n_random
+    dist["equal_value_families"] = {}
+    for lab, _ in fam:
+        k = lab.split("/")[0]
+        dist["equal_value_families"][k] = dist["equal_value_families"].get(k, 0) + 1
     run.record_corr("cache-histories", len(hists), bad, nontriv, dist)
     _state["corr_bad"] = bad
     run.samples.append({"history": hists[len(corpus_histories())][:4], "observed": runs[len(corpus_histories())]["obs"][:4]})
+    # the memo layers in front of reference resolution (string-keyed factory caches, module discovery): Props/C11Refs.v
+    lib.run_tie(run, refstie)
+
+
+def check_catalogue(run, pool):
+    """the catalogue of equal-value families is what it claims on this interpreter: members pairwise == and hash equal
+    (families not marked eq=False), pairwise distinct objects, specs canonical (spec -> object -> spec)"""
+    fams = c12_families.all_members()
+    r = pool.ask(0, {"kind": "family", "families": [m for _, _, m in fams]})["families"]
+    bad = []
+    for (name, eq, ms), a in zip(fams, r):
+        k = len(ms)
+        if eq and not all(a["eq"][i][j] for i in range(k) for j in range(k)):
+            bad.append(name + ": not all ==/hash equal")
+        if not all(a["canon"]):
+            bad.append(name + ": non-canonical spec")
+        if not all(a["distinct"][i][j] for i in range(k) for j in range(k) if i != j):
+            bad.append(name + ": members are one object")
+    run.oblige("catalogue: the members of every equal-value family are distinct objects that compare and hash equal "
+               "on this interpreter", not bad, "; ".join(bad)[:300] or "%d families, %d members" % (len(fams), sum(len(m) for _, _, m in fams)))
 
 
 def corpus_histories(oracle_only=False):
@@ -700,6 +769,7 @@ def cold_request(op, snap):
     return {"kind": "cold", "op": o}
 
 
+_cold_cache: dict = {}
 VALUE_OPS = ("unmarshal", "marshal", "encode", "decode", "cencode", "cdecode", "iteritems", "itervalues")
 
 
@@ -711,12 +781,13 @@ def oracle(pool, hists, runs, stats):
             if o["op"] in VALUE_OPS and "[\"o\"" not in json.dumps(r["snap"][oi]):
                 reqs.append(cold_request(o, r["snap"][oi]))
                 where.append((hi, oi))
-    # identical cold requests are asked once
+    # identical cold requests are asked once (also across the streams of one run)
     uniq = {}
     for q in reqs:
         uniq.setdefault(json.dumps(q, sort_keys=True), q)
-    keys = list(uniq)
-    answers = dict(zip(keys, pool.map([uniq[k] for k in keys])))
+    keys = [k for k in uniq if k not in _cold_cache]
+    _cold_cache.update(zip(keys, pool.map([uniq[k] for k in keys])))
+    answers = _cold_cache
     stats["cold_ops"] = len(reqs)
     stats["distinct_cold_ops"] = len(keys)
     diffs = []
@@ -796,6 +867,20 @@ def search(run: lib.Run, broken):
     stats["structured_differing_operations"] = stx["differing_operations"]
     stats["cold_ops"] += stx["cold_ops"]
     stats["distinct_cold_ops"] += stx["distinct_cold_ops"]
+    # round 3: the equal-value families over the whole universe (every declared scalar type, seven positions); the
+    # histories the correspondence already ran (and the oracle above re-ran cold) are not repeated
+    done = {json.dumps(h) for h in hists}
+    fh = [ops for _, ops in c12_families.family_histories(run.tier != "quick") if json.dumps(ops) not in done]
+    run.log("oracle: random and structured streams done")
+    fr = pool.map([{"kind": "history", "ops": h} for h in fh])
+    stf = {}
+    fails += oracle(pool, fh, fr, stf)
+    run.log("oracle: %d equal-value family histories, %d cold operations" % (len(fh), stf["cold_ops"]))
+    stats["equal_value_family_histories"] = len(fh) + sum(1 for h in hists[_state.get("n_random", len(hists)):])
+    stats["equal_value_family_cold_ops"] = stf["cold_ops"]
+    stats["equal_value_family_differing_operations"] = stf["differing_operations"]
+    stats["cold_ops"] += stf["cold_ops"]
+    stats["distinct_cold_ops"] += stf["distinct_cold_ops"]
     if broken and run.tier == "quick":      # look harder
         rng = random.Random(run.seed + 7)
         more = [gen_history(rng, 16) for _ in range(300)]
@@ -806,6 +891,7 @@ def search(run: lib.Run, broken):
         stats["cold_ops"] += st2["cold_ops"]
     # validate the fork-cold interpreter against really fresh interpreters on a sample
     sample = [(h, r) for h, r in zip(hists, runs)][:run.budget(6, 30)]
+    sample += list(zip(fh, fr))[::max(1, len(fh) // run.budget(5, 25))]
     mism = 0
     for h, r in sample:
         for oi, o in enumerate(h):
@@ -855,6 +941,8 @@ def search(run: lib.Run, broken):
 # replay / known findings
 # ----------------------------------------------------------------------------------
 def replay(payload):
+    if str(payload.get("kind", "")).startswith("refs-"):
+        return refstie.replay(payload)
     """payload: {"history":[ops...]} : the last operation is compared with its cold run"""
     pool = Pool(1)
     if payload.get("kind") == "predicate":
@@ -888,11 +976,15 @@ def replay(payload):
 
 
 def reproduces(entry):
+    if str(entry.get("replay", {}).get("kind", "")).startswith("refs-"):
+        return refstie.reproduces(entry)
     r = replay(entry["replay"])
     return any(matches(entry, f) for f in r["failures"])
 
 
 def matches(entry, failure):
+    if str(failure.get("kind", "")).startswith("refs-") or str(entry.get("replay", {}).get("kind", "")).startswith("refs-"):
+        return str(failure.get("kind", "")).startswith("refs-") and refstie.matches(entry, failure)
     m = entry.get("matches", {})
     if failure.get("cause") not in m.get("causes", []):
         return False
